@@ -14,12 +14,13 @@ NB == INSTANCE NameBook WITH MaxSteps <- 0, MaxForged <- 0, DevLostForgets <- FA
         steps <- 0, forged <- 0, wrong <- 0
 
 Rec == ndJsonDeserialize(IOEnv.TRACE)
-VARIABLE l
-Init == l \in 1..Len(Rec)
-Next == UNCHANGED l
+\* TLC does not cache Rec: the record of a line is carried in the state so the file is parsed once
+VARIABLES l, rec
+Init == LET R == Rec IN \E i \in 1..Len(R) : l = i /\ rec = R[i]
+Next == UNCHANGED <<l, rec>>
 
 Report(what, detail, devs) ==
-  PrintT(<<"MISMATCH", ToJson([line |-> l, id |-> Rec[l].id, what |-> what, detail |-> detail, explained_by |-> devs])>>)
+  PrintT(<<"MISMATCH", ToJson([line |-> l, id |-> rec.id, what |-> what, detail |-> detail, explained_by |-> devs])>>)
 
 Check(r) ==
   IF r.ev = "Panic" THEN Report("panic", r.msg, {})
@@ -27,10 +28,10 @@ Check(r) ==
   LET bad == NB!Monitor(r.log)
       drift == \E i \in 1..Len(r.log) : r.log[i].k = "unscripted"
   IN
-  /\ (drift => PrintT(<<"DRIFT", ToJson([line |-> l, id |-> Rec[l].id, what |-> "unscripted-bus-call"])>>))
+  /\ (drift => PrintT(<<"DRIFT", ToJson([line |-> l, id |-> rec.id, what |-> "unscripted-bus-call"])>>))
   /\ IF bad = <<>> THEN TRUE
      ELSE LET expl == {d \in NB!KnownDevs : NB!ClientExplains(r.log, {d})} IN
           \A i \in 1..Len(bad) : Report(bad[i].clause, [at |-> bad[i].at, info |-> bad[i].detail], expl)
 
-Inv == Check(Rec[l]) \/ TRUE
+Inv == Check(rec) \/ TRUE
 =============================================================================
